@@ -97,6 +97,10 @@ EXPLANATION += (
     ' Round 14: set algebra on dict key views yields a set with a hash-order label in the taint engine.'
 )
 
+EXPLANATION += (
+    ' Round 15: what winnow_process_dict returns is labelled as timing-dependent; a list collected by membership in it carries the label on its order; integer sums of extents are exact.'
+)
+
 RULE_TEXT = (
     "one obligation per (sink site, set of source labels) finding, per "
     "benign source used, per RNG construction, per merge loop, per worker "
@@ -145,6 +149,23 @@ def check(ctx):
     # chain, never left to a callee's default (sa/rules/forwarding.py)
     from ..rules.forwarding import check_forwarding
     check_forwarding(ctx, {'rng', 'rng_seed', 'n_processors'})
+    # the pieces the workers leave behind are cut by the worker count; the
+    # functions that join them place every piece -- a piece that is
+    # skipped still occupies its rows in the joined arrays (cursor rules of
+    # sa/rules/cursors.py over the merge functions)
+    from ..rules import cursors as CU
+    n_cur = 0
+    for fi_ in ctx.db.iter_functions():
+        if fi_.module.short in ('diff_exp.markers', 'diff_exp.p_value_mask',
+                                'diff_exp.p_value_markers',
+                                'utils.csc_to_csr_parallel',
+                                'diff_exp.precompute_from_anndata') \
+                and 'merge' in fi_.name:
+            n_cur += CU.check_cursors(ctx, fi_, 'R-CURSOR/used')
+            CU.check_advance(ctx, fi_)
+    if n_cur < 2:
+        raise AnalysisError('merge functions of the worker pieces: only '
+                            f'{n_cur} cursor(s) recognised')
 
 
 # ----------------------------------------------------------------------
